@@ -37,6 +37,7 @@ def run(chk):
     gc.model_check(chk, "MCE", "MCE.tla", "MCE.cfg", 300)
     gc.witnesses(chk, "MCE.tla", WITNESSES, {})
     gc.generate_and_replay(chk, "cases", "GenE.tla", f"GenE_{t}.cfg", timeout=600)
+    gc.box_objects(chk, "c19", 3 if quick else 5)
     chk.assumptions += [
         "coordinates are built as f32(base + delta) from integers in units of 1e-6; a verdict is compared only when the "
         "difference of the two f32 values is still on the same side of EPS (band 0.95..1.05 EPS)",
